@@ -128,7 +128,7 @@ Lemma stake_Done s who pid d amt s' rw :
   stake s who pid d amt = Done s' rw ->
   exists p b1 p1 b2 rw0 db b3,
     let fi := match get_finfo p1 who with Some fi => fi | None => mkF 0 [] end in
-    0 < pid /\ 0 <= amt /\ get pid (pools s) = Some p /\ p_start p <= height s /\ expired s pid p = false
+    0 < pid /\ 0 < amt /\ get pid (pools s) = Some p /\ p_start p <= height s /\ expired s pid p = false
     /\ d = p_lpt p /\ send (bank s) who FARM d amt = Some b1
     /\ update_pool (height s) b1 p amt false = (p1, b2, true)
     /\ cacl (p_rules p1) (f_locked fi) (f_debt fi) amt = Some (rw0, db)
